@@ -552,9 +552,9 @@ def run(ctx):
     pairs = [bytes([a, b]) for a in SPECIALS for b in SPECIALS]
     for p in (pairs if not q else pairs[::4]):
         e2e.append(std_inp(auth=['password', b'admin'.hex(), p.hex()]))
-    for _ in range(80 if q else 1500):
-        e2e.append(rand_inp(rng, user=rand_str(rng, rng.randrange(0, 12)), pw=rand_str(rng, rng.randrange(0, 24)),
-                            type=rng.choice(['lan', 'lanplus'])))
+    e2e.append(std_inp(target={'addr': 0x20, 'routing': [[0x81, 0x20, 0]]}))
+    e2e.append(std_inp(target={'addr': 0x82, 'routing': [[0x81, 0x20, 0], [0x20, 0x82, 7]]}))
+    e2e.append(std_inp(target={'addr': 0x72, 'routing': [[0x81, 0x20, 0], [0x20, 0x82, 7], [0x20, 0x72, None]]}))
     for d in (1, 2, 3):
         for ty in TYPES:
             for _ in range(2):
@@ -564,6 +564,9 @@ def run(ctx):
                 e2e.append(rand_inp(rng, type=ty, target=t, cipher=None))
     for ci in (['int', 0], ['str', 0], ['int', 1], ['str', 17]):
         e2e.append(std_inp(cipher=ci, type='lanplus'))
+    for _ in range(80 if q else 1500):
+        e2e.append(rand_inp(rng, user=rand_str(rng, rng.randrange(0, 12)), pw=rand_str(rng, rng.randrange(0, 24)),
+                            type=rng.choice(['lan', 'lanplus'])))
     for l in range(4):
         for n in range(64):
             e2e.append(std_inp(lun=l, netfn=n, raw=bytes(rng.randrange(256) for _ in range(rng.randrange(1, 41))).hex(),
